@@ -24,9 +24,13 @@ def SHold (l : Local) (sid : SessId) : Prop :=
 
 /-- inside Engine.Begin the continuation is one of the Begin call sites -/
 def BeginWf (l : Local) : Prop :=
-  (l.pc = .bLock ∨ l.pc = .bCheck ∨ l.pc = .bSessLock ∨ l.pc = .bSessRead ∨ l.pc = .bAcquire ∨
+  ((l.pc = .bLock ∨ l.pc = .bCheck ∨ l.pc = .bSessLock ∨ l.pc = .bSessRead ∨ l.pc = .bAcquire ∨
     l.pc = .bRelock ∨ l.pc = .bPost) →
-  (l.k = .use ∨ l.k = .start ∨ l.k = .expBegin ∨ l.k = .dBegin)
+  (l.k = .use ∨ l.k = .start ∨ l.k = .expBegin ∨ l.k = .dBegin)) ∧
+  ((l.pc = .cLock ∨ l.pc = .cCheck ∨ l.pc = .cStore) →
+    (l.k = .useCommit ∨ l.k = .sessCommit ∨ l.k = .expCommit ∨ l.k = .dCommit)) ∧
+  ((l.pc = .aLock ∨ l.pc = .aBody) →
+    (l.k = .useAbort ∨ l.k = .startAbort ∨ l.k = .sessAbort ∨ l.k = .expAbort ∨ l.k = .dAbort))
 
 /-- the lock/token invariant -/
 structure Inv1 (s : State) : Prop where
